@@ -1332,6 +1332,11 @@ def getattr_value(I_, obj, name, st, ctx, k, node=None):
     fr = st.frames[obj.fid]
     if name in fr and fr[name] is not _ABSENT:
       return k(st, fr[name])
+    if obj.known is not None and name not in obj.known:
+      # the loop annotation names a local the function does not have (any more): the annotation does not fit this
+      # code - a harmless rename must not look like a defect.  The unit becomes undecided (exit 2).
+      raise Unsupported("loop annotation refers to local %r, which the function under contract does not have: "
+                        "the annotation does not apply to this code" % name)
     return I_.raise_exc(st, ctx, AttributeError, "loop view: no local " + name, node)
   if is_sym(obj) or isinstance(obj, tuple):
     if isinstance(obj, tuple) or name.startswith("__"):
@@ -1421,7 +1426,39 @@ def obj_getattr(I_, ref, o, cls, name, st, ctx, k, node):
   ga = I_.class_lookup(cls, "__getattr__")
   if ga is not _MISSING:
     return I_.call_value(I_.bind(ga, ref, cls), [name], {}, st, ctx, k, node)
+  if ref.oid in RAW_OIDS and _class_assigns_attr(cls, name):
+    # real instances of this class get this attribute from the class's own code (e.g. __init__), but the object at hand
+    # was put together by a contract's harness without it (a renamed field): the contract does not fit this code.
+    # Undecided (exit 2) - a defect would be an attribute nobody ever assigns.
+    raise Unsupported("harness object of class %s lacks attribute %r which the class's own code assigns: the contract "
+                      "does not fit this code" % (cls.__name__, name))
   return I_.raise_exc(st, ctx, AttributeError, "'%s' object has no attribute '%s'" % (cls.__name__, name), node)
+
+
+_ASSIGNS_CACHE = {}
+RAW_OIDS = set()      # objects allocated by a contract's harness without running __init__ (SymBuilder.raw_new)
+
+
+def _class_assigns_attr(cls, name):
+  """does any method of cls (or of its bases defined in Python source) assign self.<name>?"""
+  import inspect, re
+  key = (cls, name)
+  if key in _ASSIGNS_CACHE:
+    return _ASSIGNS_CACHE[key]
+  pat = re.compile(r"\bself\.%s\b\s*(=(?!=)|\+=|-=|\|=)" % re.escape(name))
+  found = False
+  for c_ in cls.__mro__:
+    if c_ is object:
+      continue
+    try:
+      src = inspect.getsource(c_)
+    except Exception:
+      continue
+    if pat.search(src):
+      found = True
+      break
+  _ASSIGNS_CACHE[key] = found
+  return found
 
 
 def real_instance_getattr(I_, obj, cls, name, st, ctx, k, node):
